@@ -1,63 +1,25 @@
-(* C20/Share.v — the reference count of a subscription is the number of its holders: the live streams created for the rule
-   (until their remove_match has been applied), the queued remove_match tasks that have not run yet, and the add_match call
-   that is just creating it.  Holds as long as no stream has been cloned. *)
+(* C20/Share.v — sharing: the reference count of a subscription is the number of its holders — the shared rules (Arc) of the streams
+   made for it (a stream and all its clones hold ONE), the remove_match calls that have not taken `subscriptions` yet, and the
+   add_match call that is just creating it; all streams of a rule read the one channel of its entry; every stream is registered
+   under its key until the reader fails.  For every history (clones included, since fix 3c4a83a4). *)
 From ZV Require Import Base.Bytes Base.Res C19.Broadcast C19.BroadcastFacts C20.Model C20.Lemmas C20.Steps C20.Inv C20.InvG1 C20.InvG2 C20.InvG3
-  C20.Proofs C20.Count.
+  C20.Proofs C20.Count C20.Arcs.
 From Coq Require Import Lia Permutation.
 
-Definition in_r1 (s : sys) (sid : nat) : bool := match lookup (drops s) sid with Some (R1 _) => true | _ => false end.
-Definition rule_is (r : nat) (st : stream) : bool := match s_rule st with Some r' => Nat.eqb r' r | None => false end.
-Definition holds_stream (s : sys) (r : nat) (p : nat * stream) : bool := rule_is r (snd p) && negb (in_r1 s (fst p)).
 Definition holds_task (r : nat) (p : nat * rmpc) : bool := Nat.eqb (fst p) r && match snd p with R0 => true | R1 _ => false end.
 Definition holds_add (r : nat) (p : nat * addst) : bool := Nat.eqb (a_rule (snd p)) r && match a_pc (snd p) with A2 _ => true | _ => false end.
 Definition holders (s : sys) (r : nat) : nat :=
-  cnt (holds_stream s r) (streams s) + cnt (holds_task r) (tasks s) + cnt (holds_add r) (adds s).
+  cnt (is_rule r) (arcs s) + cnt (holds_task r) (tasks s) + cnt (holds_add r) (adds s).
 
-Definition keys_ok (s : sys) : Prop := keys_nodup (streams s) /\ keys_nodup (adds s).
-
-Definition refs_ok (s : sys) : Prop :=
-  (forall r, match lookup (subs s) r with Some e => e_ref e = holders s r | None => holders s r = 0 end) /\
-  (forall sid st r e, lookup (streams s) sid = Some st -> s_rule st = Some r -> in_r1 s sid = false -> lookup (subs s) r = Some e -> s_ch st = e_ch e).
-
-Lemma keys_bury s sid st : keys_ok s -> keys_ok (bury s sid st).
-Proof. intros [H1 H2]. split; [rewrite streams_bury; now apply keys_del | exact H2]. Qed.
-
-(* ---- how the three counts move when one key of a table changes ---- *)
-Definition contrib_s (s : sys) (r sid : nat) : nat :=
-  match lookup (streams s) sid with Some st => b2n (holds_stream s r (sid, st)) | None => 0 end.
 Definition contrib_a (s : sys) (r sid : nat) : nat :=
   match lookup (adds s) sid with Some a => b2n (holds_add r (sid, a)) | None => 0 end.
-
-Lemma S_change s s' sid r : keys_nodup (streams s) -> keys_nodup (streams s') -> del (streams s') sid = del (streams s) sid ->
-  (forall sid', sid' <> sid -> in_r1 s' sid' = in_r1 s sid') ->
-  cnt (holds_stream s' r) (streams s') + contrib_s s r sid = cnt (holds_stream s r) (streams s) + contrib_s s' r sid.
-Proof.
-  intros K K' Ed Hin. rewrite (cnt_split (holds_stream s r) (streams s) sid K), (cnt_split (holds_stream s' r) (streams s') sid K').
-  unfold contrib_s. rewrite Ed. assert (E : cnt (holds_stream s' r) (del (streams s) sid) = cnt (holds_stream s r) (del (streams s) sid)).
-  { apply cnt_ext. intros [sid' st] Hi. apply in_del in Hi. destruct Hi as [_ Hne]. cbn in Hne. unfold holds_stream. cbn. now rewrite (Hin _ Hne). }
-  rewrite E. lia.
-Qed.
-
 Lemma A_change s s' sid r : keys_nodup (adds s) -> keys_nodup (adds s') -> del (adds s') sid = del (adds s) sid ->
   cnt (holds_add r) (adds s') + contrib_a s r sid = cnt (holds_add r) (adds s) + contrib_a s' r sid.
 Proof.
   intros K K' Ed. rewrite (cnt_split (holds_add r) (adds s) sid K), (cnt_split (holds_add r) (adds s') sid K'). unfold contrib_a. rewrite Ed. lia.
 Qed.
-
-Lemma S_same s s' r : streams s' = streams s -> (forall sid, in_r1 s' sid = in_r1 s sid) -> cnt (holds_stream s' r) (streams s') = cnt (holds_stream s r) (streams s).
-Proof. intros Es Hin. rewrite Es. apply cnt_ext. intros [sid st] _. unfold holds_stream. cbn. now rewrite Hin. Qed.
-
-Lemma S_pred s s' r : (forall sid, in_r1 s' sid = in_r1 s sid) -> forall l, cnt (holds_stream s' r) l = cnt (holds_stream s r) l.
-Proof. intros Hin l. apply cnt_ext. intros [sid st] _. unfold holds_stream. cbn. now rewrite Hin. Qed.
-
-Lemma in_r1_drops s s' : drops s' = drops s -> forall sid, in_r1 s' sid = in_r1 s sid.
-Proof. intros E sid. unfold in_r1. now rewrite E. Qed.
-
-Lemma holds_stream_val s r sid st : holds_stream s r (sid, st) = rule_is r st && negb (in_r1 s sid).
-Proof. reflexivity. Qed.
 Lemma holds_task_val r r' pc : holds_task r (r', pc) = Nat.eqb r' r && match pc with R0 => true | R1 _ => false end.
 Proof. reflexivity. Qed.
-
 Lemma holds_add_pc r sid a : (forall c, a_pc a <> A2 c) -> holds_add r (sid, a) = false.
 Proof. intros H. unfold holds_add. cbn. destruct (a_pc a) eqn:E; try apply andb_false_r. destruct (H _ eq_refl). Qed.
 Lemma holds_add_a2 r sid a c : a_pc a = A2 c -> holds_add r (sid, a) = Nat.eqb (a_rule a) r.
@@ -69,77 +31,210 @@ Notation tstep := (Steps.tstep matches).
 Notation Inv := (Inv.Inv matches).
 Notation reach := (Model.reach matches).
 
-Lemma keys_step s l s' : tstep s l s' -> keys_ok s -> keys_ok s'.
+(* the pre-fix async_drop transitions cannot fire when the table of such drops is empty (Proofs.drops_nil) *)
+Ltac dead_drop Hd := exfalso; match goal with H : lookup (drops _) _ = Some _ |- _ => rewrite Hd in H; discriminate end.
+
+Lemma akeys_step s l s' : tstep s l s' -> keys_nodup (adds s) -> keys_nodup (adds s').
 Proof.
-  intros Hs K. pose proof K as [K1 K2].
-  destruct Hs; try exact K; try (split; cbn [streams adds with_streams with_adds with_subs with_chans with_senders with_cloned set_chan];
-                                 first [now apply keys_put | now apply keys_del | assumption]).
-  - pose proof (rm_apply_frame _ _ _ _ H3) as (_ & Estr & Eadd & _). assert (K' : keys_ok s1) by (split; [now rewrite Estr | now rewrite Eadd]).
-    exact (keys_bury s1 sid st K').
-  - pose proof (rm_apply_frame _ _ _ _ H3) as (_ & Estr & Eadd & _). split; cbn [streams adds with_drops]; [now rewrite Estr | now rewrite Eadd].
-  - assert (K' : keys_ok (rm_sender s r)) by (split; [now rewrite streams_rm | now rewrite adds_rm]). exact (keys_bury _ sid st K').
-  - pose proof (rm_apply_frame _ _ _ _ H1) as (_ & Estr & Eadd & _). split; cbn [streams adds with_tasks]; [now rewrite Estr | now rewrite Eadd].
-  - pose proof (rm_apply_frame _ _ _ _ H1) as (_ & Estr & Eadd & _). split; cbn [streams adds with_tasks]; [now rewrite Estr | now rewrite Eadd].
-  - split; cbn [streams adds with_tasks]; [now rewrite streams_rm | now rewrite adds_rm].
+  intros Hs K.
+  destruct Hs; try exact K; try (cbn [adds with_arcs with_adds with_streams with_subs with_chans with_senders set_chan]; first [now apply keys_put | now apply keys_del]).
+  - pose proof (rm_apply_frame _ _ _ _ H3) as (_ & _ & Eadd & _). cbn [adds with_drops]. rewrite adds_bury. now rewrite Eadd.
+  - pose proof (rm_apply_frame _ _ _ _ H3) as (_ & _ & Eadd & _). cbn [adds with_drops]. now rewrite Eadd.
+  - cbn [adds with_drops]. rewrite adds_bury. now rewrite adds_rm.
+  - pose proof (rm_apply_frame _ _ _ _ H1) as (_ & _ & Eadd & _). cbn [adds with_tasks]. now rewrite Eadd.
+  - pose proof (rm_apply_frame _ _ _ _ H1) as (_ & _ & Eadd & _). cbn [adds with_tasks]. now rewrite Eadd.
+  - cbn [adds with_tasks]. now rewrite adds_rm.
 Qed.
 
-Lemma keys_reach tr s : reach tr s -> keys_ok s.
+Lemma akeys_reach tr s : reach tr s -> keys_nodup (adds s).
+Proof. induction 1 as [|tr s l s' Hr IH Hs]; [constructor|]. eapply akeys_step; [apply step_tstep; eassumption | assumption]. Qed.
+
+(* ---- every stream made for a rule holds a shared rule (Arc) of that rule, and the holders of a shared rule are such streams ---- *)
+Definition grp_ok (s : sys) : Prop :=
+  (forall sid st r, lookup (streams s) sid = Some st -> s_rule st = Some r ->
+     exists i ms, idx_of (arcs s) sid = Some i /\ nth_error (arcs s) i = Some (r, ms)) /\
+  (forall r ms sid, In (r, ms) (arcs s) -> In sid ms -> exists st, lookup (streams s) sid = Some st /\ s_rule st = Some r).
+
+Lemma grp_frame s s' : grp_ok s -> arcs s' = arcs s -> streams s' = streams s -> grp_ok s'.
+Proof. intros [G1 G2] Ea Es. split; [intros sid st r; rewrite Ea, Es; apply G1 | intros r ms sid; rewrite Ea, Es; apply G2]. Qed.
+
+(* a stream that goes away without touching the table: it held nothing (no rule), or nothing lists it *)
+Lemma grp_bury_plain s sid st : grp_ok s -> lookup (streams s) sid = Some st -> (forall r ms, In (r, ms) (arcs s) -> ~ In sid ms) ->
+  forall s', arcs s' = arcs s -> streams s' = del (streams s) sid -> grp_ok s'.
 Proof.
-  induction 1 as [|tr s l s' Hr IH Hs]; [split; constructor|]. eapply keys_step; [apply step_tstep; eassumption | assumption].
+  intros [G1 G2] Hl Hno s' Ea Es. split.
+  - intros sid' st' r Hl' Hr. rewrite Es in Hl'. apply in_del_lookup in Hl'. rewrite Ea. eauto.
+  - intros r ms sid' Hin Hm. rewrite Ea in Hin. destruct (G2 _ _ _ Hin Hm) as (st' & Hs' & Hr'). exists st'. split; [|assumption].
+    rewrite Es. rewrite lookup_del_other; [assumption|]. intros ->. exact (Hno _ _ Hin Hm).
 Qed.
 
+(* the holder lets go of its shared rule *)
+Lemma grp_release s sid st r a' b : grp_ok s -> lookup (streams s) sid = Some st -> s_rule st = Some r -> release (arcs s) sid = (a', b) ->
+  forall s', arcs s' = a' -> streams s' = del (streams s) sid -> grp_ok s'.
+Proof.
+  intros [G1 G2] Hl Hr Hrel s' Ea Es. destruct (G1 _ _ _ Hl Hr) as (i & ms & Hi & Hn).
+  destruct (release_spec _ _ _ _ Hrel) as [(Hnone & _)|(i' & r' & ms' & Hi' & Hn' & Hcase)]; [congruence|].
+  rewrite Hi in Hi'. inversion Hi'; subst i'. rewrite Hn in Hn'. inversion Hn'; subst r' ms'.
+  assert (Hleave1 : forall sid' st' r0, sid' <> sid -> lookup (streams s) sid' = Some st' -> s_rule st' = Some r0 ->
+            exists j ms0, idx_of (leave (arcs s) sid) sid' = Some j /\ nth_error (leave (arcs s) sid) j = Some (r0, remove_nat sid ms0) /\ In sid' (remove_nat sid ms0)).
+  { intros sid' st' r0 Hne Hl' Hr'. destruct (G1 _ _ _ Hl' Hr') as (j & ms0 & Hj & Hnj). exists j, ms0.
+    assert (Hidx : idx_of (leave (arcs s) sid) sid' = idx_of (arcs s) sid') by (apply idx_of_map_rel; intros p _; now apply holds_leave).
+    rewrite Hidx, nth_error_leave, Hnj. split; [assumption|]. split; [reflexivity|].
+    destruct (idx_of_some _ _ _ Hj) as (p & Hp & Hh). rewrite Hnj in Hp. inversion Hp; subst p. apply holds_in in Hh. cbn in Hh. apply in_remove_nat. tauto. }
+  assert (Hleave2 : forall r0 ms0 sid', In (r0, ms0) (leave (arcs s) sid) -> In sid' ms0 ->
+            exists st', lookup (del (streams s) sid) sid' = Some st' /\ s_rule st' = Some r0).
+  { intros r0 ms0 sid' Hin Hm. unfold leave in Hin. apply in_map_iff in Hin. destruct Hin as ([r1 ms1] & E & Hin). cbn in E. inversion E; subst r0 ms0.
+    apply in_remove_nat in Hm. destruct Hm as [Hm Hne]. destruct (G2 _ _ _ Hin Hm) as (st' & Hs' & Hr'). exists st'. split; [|assumption]. now rewrite lookup_del_other. }
+  split.
+  - intros sid' st' r0 Hl' Hr'. rewrite Es in Hl'. assert (Hne : sid' <> sid) by (intros ->; now rewrite lookup_del_same in Hl').
+    rewrite lookup_del_other in Hl' by assumption. destruct (Hleave1 _ _ _ Hne Hl' Hr') as (j & ms0 & Hj & Hnj & Hm). rewrite Ea.
+    destruct Hcase as [(Hemp & -> & _)|(_ & -> & _)]; [|eauto].
+    assert (Hp : nth_error (leave (arcs s) sid) i = Some (r, [])) by (rewrite nth_error_leave, Hn; cbn; now rewrite Hemp).
+    destruct (idx_of_del_nth _ _ _ _ _ _ Hj Hnj Hp) as (j' & H1 & H2); [reflexivity | eauto].
+  - intros r0 ms0 sid' Hin Hm. rewrite Ea in Hin. rewrite Es. destruct Hcase as [(_ & -> & _)|(_ & -> & _)].
+    + apply in_del_nth in Hin. eauto.
+    + eauto.
+Qed.
+
+Lemma grp_put s sid stn : grp_ok s -> (forall st, lookup (streams s) sid = Some st -> s_rule stn = s_rule st) ->
+  (lookup (streams s) sid = None -> s_rule stn = None) ->
+  forall s', arcs s' = arcs s -> streams s' = put (streams s) sid stn -> grp_ok s'.
+Proof.
+  intros [G1 G2] Hsame Hnew s' Ea Es. split.
+  - intros sid' st' r Hl' Hr. rewrite Es in Hl'. rewrite Ea. destruct (Nat.eq_dec sid' sid) as [->|Hne].
+    + rewrite lookup_put_same in Hl'. inversion Hl'; subst st'. destruct (lookup (streams s) sid) as [st|] eqn:E.
+      * rewrite (Hsame st eq_refl) in Hr. eauto.
+      * rewrite (Hnew eq_refl) in Hr. discriminate.
+    + rewrite lookup_put_other in Hl' by assumption. eauto.
+  - intros r ms sid' Hin Hm. rewrite Ea in Hin. rewrite Es. destruct (G2 _ _ _ Hin Hm) as (st' & Hs' & Hr'). destruct (Nat.eq_dec sid' sid) as [->|Hne].
+    + rewrite lookup_put_same. exists stn. split; [reflexivity|]. now rewrite (Hsame _ Hs').
+    + rewrite lookup_put_other by assumption. eauto.
+Qed.
+
+Lemma grp_add s sid r stn : grp_ok s -> lookup (streams s) sid = None -> s_rule stn = Some r ->
+  forall s', arcs s' = arcs s ++ [(r, [sid])] -> streams s' = put (streams s) sid stn -> grp_ok s'.
+Proof.
+  intros [G1 G2] Hnone Hr s' Ea Es.
+  assert (Hidx : idx_of (arcs s) sid = None).
+  { destruct (idx_of (arcs s) sid) as [i|] eqn:E; [|reflexivity]. destruct (idx_of_some _ _ _ E) as ([r0 ms0] & Hn & Hh).
+    apply nth_error_In in Hn. apply holds_in in Hh. destruct (G2 _ _ _ Hn Hh) as (st & Hs & _). congruence. }
+  split.
+  - intros sid' st' r0 Hl' Hr'. rewrite Es in Hl'. rewrite Ea, idx_of_app. destruct (Nat.eq_dec sid' sid) as [->|Hne].
+    + rewrite lookup_put_same in Hl'. inversion Hl'; subst st'. rewrite Hidx. cbn [holds snd existsb]. rewrite Nat.eqb_refl. cbn [orb].
+      exists (length (arcs s)), [sid]. split; [reflexivity|]. rewrite nth_error_app2 by lia. rewrite Nat.sub_diag. cbn. congruence.
+    + rewrite lookup_put_other in Hl' by assumption. destruct (G1 _ _ _ Hl' Hr') as (i & ms & Hi & Hn). rewrite Hi. exists i, ms. split; [reflexivity|].
+      rewrite nth_error_app1; [assumption|]. apply nth_error_Some. congruence.
+  - intros r0 ms0 sid' Hin Hm. rewrite Ea in Hin. rewrite Es. apply in_app_iff in Hin. destruct Hin as [Hin|[E|[]]].
+    + destruct (G2 _ _ _ Hin Hm) as (st' & Hs' & Hr'). exists st'. split; [|assumption]. rewrite lookup_put_other; [assumption | intros ->; congruence].
+    + inversion E; subst r0 ms0. destruct Hm as [<-|[]]. rewrite lookup_put_same. eauto.
+Qed.
+
+Lemma grp_clone s sid sid2 st : grp_ok s -> lookup (streams s) sid = Some st -> lookup (streams s) sid2 = None ->
+  forall s', arcs s' = join (arcs s) sid sid2 -> streams s' = put (streams s) sid2 st -> grp_ok s'.
+Proof.
+  intros [G1 G2] Hl Hnone s' Ea Es.
+  set (f := fun p : nat * list nat => if holds sid p then (fst p, snd p ++ [sid2]) else p).
+  assert (Hno2 : forall p, In p (arcs s) -> holds sid2 p = false).
+  { intros [r0 ms0] Hin. apply holds_false. intros Hm. destruct (G2 _ _ _ Hin Hm) as (st' & Hs' & _). congruence. }
+  assert (Hother : forall x p, x <> sid2 -> holds x (f p) = holds x p).
+  { intros x p Hne. unfold f. destruct (holds sid p); [|reflexivity]. destruct (holds x p) eqn:E.
+    - apply holds_in. cbn. apply in_app_iff. left. now apply holds_in.
+    - apply holds_false. cbn. rewrite in_app_iff. apply holds_false in E. cbn. intros [H|[H|[]]]; [tauto | congruence]. }
+  assert (Hnew : forall p, In p (arcs s) -> holds sid2 (f p) = holds sid p).
+  { intros p Hin. unfold f. destruct (holds sid p) eqn:E; [|now apply Hno2]. apply holds_in. cbn. apply in_app_iff. right. now left. }
+  assert (Hrule : forall p, fst (f p) = fst p) by (intros p; unfold f; destruct (holds sid p); reflexivity).
+  split.
+  - intros sid' st' r Hl' Hr'. rewrite Es in Hl'. rewrite Ea. unfold join. fold f. destruct (Nat.eq_dec sid' sid2) as [->|Hne].
+    + rewrite lookup_put_same in Hl'. inversion Hl'; subst st'. destruct (G1 _ _ _ Hl Hr') as (i & ms & Hi & Hn).
+      rewrite (idx_of_map_rel f (arcs s) sid2 sid Hnew), Hi. exists i. rewrite nth_error_map, Hn. cbn [option_map].
+      exists (snd (f (r, ms))). split; [reflexivity|]. f_equal. rewrite (surjective_pairing (f (r, ms))). now rewrite Hrule.
+    + rewrite lookup_put_other in Hl' by assumption. destruct (G1 _ _ _ Hl' Hr') as (i & ms & Hi & Hn).
+      rewrite (idx_of_map_rel f (arcs s) sid' sid' (fun p _ => Hother sid' p Hne)), Hi. exists i. rewrite nth_error_map, Hn. cbn [option_map].
+      exists (snd (f (r, ms))). split; [reflexivity|]. f_equal. rewrite (surjective_pairing (f (r, ms))). now rewrite Hrule.
+  - intros r0 ms0 sid' Hin Hm. rewrite Ea in Hin. rewrite Es. unfold join in Hin. fold f in Hin. apply in_map_iff in Hin. destruct Hin as ([r1 ms1] & E & Hin).
+    unfold f in E. destruct (holds sid (r1, ms1)) eqn:Eh; inversion E; subst r0 ms0.
+    + cbn [fst snd] in Hm. apply in_app_iff in Hm. destruct Hm as [Hm|[<-|[]]].
+      * destruct (G2 _ _ _ Hin Hm) as (st' & Hs' & Hr'). exists st'. split; [|assumption]. rewrite lookup_put_other; [assumption | intros ->; congruence].
+      * apply holds_in in Eh. cbn in Eh. destruct (G2 _ _ _ Hin Eh) as (st' & Hs' & Hr'). rewrite Hl in Hs'. inversion Hs'; subst st'. rewrite lookup_put_same. eauto.
+    + destruct (G2 _ _ _ Hin Hm) as (st' & Hs' & Hr'). exists st'. split; [|assumption]. rewrite lookup_put_other; [assumption | intros ->; congruence].
+Qed.
+
+Lemma grp_step s l s' : tstep s l s' -> Inv s -> drops s = [] -> grp_ok s -> grp_ok s'.
+Proof.
+  intros Hs I Hd G. pose proof G as [G1 G2].
+  destruct Hs; try (eapply grp_frame; [exact G | reflexivity | reflexivity]); try (dead_drop Hd).
+  - (* occupied *) eapply (grp_add s sid (a_rule a) (mk_stream (Some (a_rule a)) (e_ch e) (seen s (e_ch e)))); [exact G | eapply inv_ids; eassumption | reflexivity | reflexivity | reflexivity].
+  - (* add sender *) eapply (grp_add s sid (a_rule a) (mk_stream (Some (a_rule a)) c (seen s c))); [exact G | eapply inv_ids; eassumption | reflexivity | reflexivity | reflexivity].
+  - (* unfiltered *) apply fresh_spec in H. destruct H as (Hn & _). eapply (grp_put s sid (mk_stream None 0 (seen s 0))); [exact G | intros st Hst; congruence | reflexivity | reflexivity | reflexivity].
+  - (* poll *) destruct H as [Hl _]. eapply (grp_put s sid (got_more st x)); [exact G | intros st0 Hst; rewrite Hl in Hst; inversion Hst; reflexivity | intros Hn; congruence | reflexivity | reflexivity].
+  - (* drop, last holder *) destruct H as [Hl _]. eapply (grp_release s sid st r); [exact G | exact Hl | eassumption | eassumption | reflexivity | reflexivity].
+  - (* drop, no rule *) destruct H as [Hl _]. eapply (grp_bury_plain s sid st); [exact G | exact Hl | | reflexivity | reflexivity].
+    intros r ms Hin Hm. destruct (G2 _ _ _ Hin Hm) as (st' & Hs' & Hr'). congruence.
+  - (* clone *) destruct H as [Hl _]. apply fresh_spec in H0. destruct H0 as (Hn & _). eapply (grp_clone s sid sid2 st); [exact G | exact Hl | exact Hn | reflexivity | reflexivity].
+  - destruct H as [Hl _]. eapply (grp_release s sid st r); [exact G | exact Hl | eassumption | eassumption | reflexivity | reflexivity].
+  - destruct H as [Hl _]. eapply (grp_bury_plain s sid st); [exact G | exact Hl | | reflexivity | reflexivity].
+    intros r ms Hin Hm. destruct (G2 _ _ _ Hin Hm) as (st' & Hs' & Hr'). congruence.
+  - pose proof (rm_apply_frame _ _ _ _ H1) as (_ & Estr & _ & _ & _ & _ & _ & _ & _ & Earc). eapply grp_frame; [exact G | exact Earc | exact Estr].
+  - pose proof (rm_apply_frame _ _ _ _ H1) as (_ & Estr & _ & _ & _ & _ & _ & _ & _ & Earc). eapply grp_frame; [exact G | exact Earc | exact Estr].
+  - eapply grp_frame; [exact G | apply arcs_rm | apply streams_rm].
+  - destruct H as [Hl _]. eapply (grp_release s sid st r); [exact G | exact Hl | eassumption | eassumption | reflexivity | reflexivity].
+  - destruct H as [Hl _]. eapply (grp_release s sid st r); [exact G | exact Hl | eassumption | eassumption | reflexivity | reflexivity].
+Qed.
+
+(* ---- the reference count ---- *)
 Definition count_ok (s : sys) : Prop :=
   forall r, match lookup (subs s) r with Some e => e_ref e = holders s r | None => holders s r = 0 end.
 
-(* tables unchanged: the equation carries over *)
-Lemma count_same s s' : count_ok s -> subs s' = subs s -> streams s' = streams s -> adds s' = adds s -> tasks s' = tasks s -> drops s' = drops s -> count_ok s'.
-Proof.
-  intros C Esub Es Ea Et Ed r. specialize (C r). unfold holders in *. rewrite Esub, Ea, Et.
-  rewrite (S_same s s' r Es (in_r1_drops s s' Ed)). exact C.
-Qed.
-
-Lemma rule_is_eqb r r0 st : s_rule st = Some r0 -> rule_is r st = Nat.eqb r0 r.
-Proof. intros H. unfold rule_is. now rewrite H. Qed.
+Lemma count_same s s' : count_ok s -> subs s' = subs s -> arcs s' = arcs s -> adds s' = adds s -> tasks s' = tasks s -> count_ok s'.
+Proof. intros C E1 E2 E3 E4 r. specialize (C r). unfold holders in *. now rewrite E1, E2, E3, E4. Qed.
 
 (* an add_match call that has just created the entry of its rule is its only holder *)
 Definition a2_one (s : sys) : Prop := forall sid r c, a2 s sid r c -> holders s r = 1.
 
-Lemma count_step s l s' : tstep s l s' -> Inv s -> keys_ok s -> keys_ok s' -> (forall a b, l <> LClone a b) -> a2_one s -> count_ok s -> count_ok s'.
+(* what letting go does to the number of shared rules of each rule *)
+Lemma cnt_release s sid st r a' b : grp_ok s -> lookup (streams s) sid = Some st -> s_rule st = Some r -> release (arcs s) sid = (a', b) ->
+  forall r0, cnt (is_rule r0) a' + (if b then b2n (Nat.eqb r r0) else 0) = cnt (is_rule r0) (arcs s).
 Proof.
-  intros Hs I [Ks Ka] [Ks' Ka'] Hnc Aone C.
-  destruct Hs; try (eapply count_same; [exact C | reflexivity..]).
+  intros [G1 _] Hl Hr Hrel r0. destruct (G1 _ _ _ Hl Hr) as (i & ms & Hi & Hn).
+  destruct (release_spec _ _ _ _ Hrel) as [(Hnone & _)|(i' & r' & ms' & Hi' & Hn' & Hcase)]; [congruence|].
+  rewrite Hi in Hi'. inversion Hi'; subst i'. rewrite Hn in Hn'. inversion Hn'; subst r' ms'.
+  destruct Hcase as [(Hemp & -> & ->)|(_ & -> & ->)].
+  - assert (Hp : nth_error (leave (arcs s) sid) i = Some (r, [])) by (rewrite nth_error_leave, Hn; cbn; now rewrite Hemp).
+    pose proof (cnt_del_nth (is_rule r0) _ _ _ Hp) as Hx. rewrite cnt_leave in Hx. exact Hx.
+  - rewrite cnt_leave. lia.
+Qed.
+
+Lemma count_step s l s' : tstep s l s' -> Inv s -> drops s = [] -> keys_nodup (adds s) -> keys_nodup (adds s') -> grp_ok s -> a2_one s ->
+  count_ok s -> count_ok s'.
+Proof.
+  intros Hs I Hd Ka Ka' G Aone C.
+  destruct Hs; try (eapply count_same; [exact C | reflexivity..]); try (dead_drop Hd).
   - (* add start: a call in A0 holds nothing *)
-    apply fresh_spec in H. destruct H as (_ & Hn & _). intros r0. specialize (C r0). unfold holders in *. cbn [subs streams adds tasks with_adds] in *.
-    rewrite (S_pred s _ r0 (in_r1_drops s _ eq_refl)).
+    apply fresh_spec in H. destruct H as (_ & Hn & _). intros r0. specialize (C r0). unfold holders in *. cbn [subs arcs adds tasks with_adds] in *.
     pose proof (A_change s (with_adds s (put (adds s) sid {| a_rule := r; a_q := q; a_pc := A0 |})) sid r0 Ka Ka' (del_put _ _ _)) as HA.
     unfold contrib_a in HA. cbn [adds with_adds] in HA. rewrite lookup_put_same, Hn in HA. rewrite holds_add_pc in HA by (intros c0; discriminate). cbn [b2n] in HA.
     destruct (lookup (subs s) r0); lia.
   - (* add check fails *)
-    intros r0. specialize (C r0). unfold holders in *. cbn [subs streams adds tasks with_adds] in *. rewrite (S_pred s _ r0 (in_r1_drops s _ eq_refl)).
+    intros r0. specialize (C r0). unfold holders in *. cbn [subs arcs adds tasks with_adds] in *.
     pose proof (A_change s (with_adds s (del (adds s) sid)) sid r0 Ka Ka' (del_del _ _)) as HA.
     unfold contrib_a in HA. cbn [adds with_adds] in HA. rewrite lookup_del_same, H in HA. rewrite holds_add_pc in HA by (intros c0; congruence). cbn [b2n] in HA.
     destruct (lookup (subs s) r0); lia.
   - (* add check ok *)
-    intros r0. specialize (C r0). unfold holders in *. cbn [subs streams adds tasks with_adds] in *. rewrite (S_pred s _ r0 (in_r1_drops s _ eq_refl)).
+    intros r0. specialize (C r0). unfold holders in *. cbn [subs arcs adds tasks with_adds] in *.
     pose proof (A_change s (with_adds s (put (adds s) sid (add_at a A1))) sid r0 Ka Ka' (del_put _ _ _)) as HA.
     unfold contrib_a in HA. cbn [adds with_adds] in HA. rewrite lookup_put_same, H in HA.
     rewrite (holds_add_pc r0 sid a) in HA by (intros c0; congruence). rewrite holds_add_pc in HA by (intros c0; cbn; discriminate). cbn [b2n] in HA.
     destruct (lookup (subs s) r0); lia.
-  - (* occupied: one more holder, one more reference *)
-    subst c ch1 s1 s2. set (r1 := a_rule a) in *.
-    set (s' := with_adds _ _). assert (Es : streams s' = put (streams s) sid (mk_stream (Some r1) (e_ch e) (seen s (e_ch e)))) by reflexivity.
-    assert (Ed : drops s' = drops s) by reflexivity.
-    pose proof (inv_ids _ _ I _ _ H) as Hns. pose proof (live_no_drop _ _ _ I Hns) as Hnd.
+  - (* occupied: one more shared rule, one more reference *)
+    subst c ch1 s1 s2. set (r1 := a_rule a) in *. set (s' := with_arcs _ _).
     intros r0. specialize (C r0). unfold holders in *.
-    pose proof (S_change s s' sid r0 Ks Ks' ltac:(rewrite Es; apply del_put) (fun sid' _ => in_r1_drops s s' Ed sid')) as HS.
     pose proof (A_change s s' sid r0 Ka Ka' ltac:(apply del_del)) as HA.
-    unfold contrib_s in HS. rewrite (eq_trans (f_equal (fun l => lookup l sid) Es) (lookup_put_same _ _ _)), Hns in HS. rewrite holds_stream_val in HS.
-    rewrite (in_r1_drops s s' Ed) in HS. unfold in_r1 in HS. rewrite Hnd in HS. cbn [negb] in HS. rewrite andb_true_r in HS. rewrite (rule_is_eqb r0 r1) in HS by reflexivity.
     unfold contrib_a in HA. change (adds s') with (del (adds s) sid) in HA at 2. rewrite lookup_del_same, H in HA. rewrite holds_add_pc in HA by (intros c0; congruence). cbn [b2n] in HA.
-    change (tasks s') with (tasks s). change (subs s') with (put (subs s) r1 {| e_ref := S (e_ref e); e_ch := e_ch e |}).
+    change (tasks s') with (tasks s). change (arcs s') with (arcs s ++ [(r1, [sid])]). rewrite cnt_app, cnt_one. replace (is_rule r0 (r1, [sid])) with (Nat.eqb r1 r0) by reflexivity.
+    change (subs s') with (put (subs s) r1 {| e_ref := S (e_ref e); e_ch := e_ch e |}).
     destruct (Nat.eq_dec r0 r1) as [->|Hne].
-    + rewrite lookup_put_same. rewrite H2 in C. rewrite Nat.eqb_refl in HS. cbn [e_ref b2n] in *. lia.
-    + rewrite lookup_put_other by assumption. replace (Nat.eqb r1 r0) with false in HS by (symmetry; apply Nat.eqb_neq; congruence). cbn [b2n] in HS.
+    + rewrite lookup_put_same. rewrite H2 in C. rewrite Nat.eqb_refl. cbn [e_ref b2n] in *. lia.
+    + rewrite lookup_put_other by assumption. replace (Nat.eqb r1 r0) with false by (symmetry; apply Nat.eqb_neq; congruence). cbn [b2n].
       destruct (lookup (subs s) r0); lia.
   - (* vacant: the call itself is the one holder *)
     subst c capacity s1 s2. set (r1 := a_rule a) in *. set (s' := with_adds _ _).
@@ -147,130 +242,37 @@ Proof.
     pose proof (A_change s s' sid r0 Ka Ka' ltac:(apply del_put)) as HA.
     unfold contrib_a in HA. change (adds s') with (put (adds s) sid (add_at a (A2 (length (chans s))))) in HA at 2. rewrite lookup_put_same, H in HA.
     rewrite (holds_add_pc r0 sid a) in HA by (intros c0; congruence). rewrite (holds_add_a2 r0 sid _ (length (chans s))) in HA by reflexivity. cbn [b2n a_rule add_at] in HA.
-    change (tasks s') with (tasks s). change (streams s') with (streams s). rewrite (S_pred s s' r0 (in_r1_drops s s' eq_refl)).
+    change (tasks s') with (tasks s). change (arcs s') with (arcs s).
     change (subs s') with (put (subs s) r1 {| e_ref := 1; e_ch := length (chans s) |}).
     destruct (Nat.eq_dec r0 r1) as [->|Hne].
     + rewrite lookup_put_same. rewrite H2 in C. fold r1 in HA. rewrite Nat.eqb_refl in HA. cbn [e_ref b2n] in *. lia.
     + rewrite lookup_put_other by assumption. fold r1 in HA. replace (Nat.eqb r1 r0) with false in HA by (symmetry; apply Nat.eqb_neq; congruence). cbn [b2n] in HA.
       destruct (lookup (subs s) r0); lia.
-  - (* add sender: the call hands its reference to the stream *)
-    set (r1 := a_rule a) in *. set (s' := with_adds _ _).
-    assert (Es : streams s' = put (streams s) sid (mk_stream (Some r1) c (seen s c))) by reflexivity. assert (Ed : drops s' = drops s) by reflexivity.
-    pose proof (inv_ids _ _ I _ _ H) as Hns. pose proof (live_no_drop _ _ _ I Hns) as Hnd.
+  - (* add sender: the call hands its reference to the stream's shared rule *)
+    set (r1 := a_rule a) in *. set (s' := with_arcs _ _).
     intros r0. specialize (C r0). unfold holders in *.
-    pose proof (S_change s s' sid r0 Ks Ks' ltac:(rewrite Es; apply del_put) (fun sid' _ => in_r1_drops s s' Ed sid')) as HS.
     pose proof (A_change s s' sid r0 Ka Ka' ltac:(apply del_del)) as HA.
-    unfold contrib_s in HS. rewrite (eq_trans (f_equal (fun l => lookup l sid) Es) (lookup_put_same _ _ _)), Hns in HS. rewrite holds_stream_val in HS.
-    rewrite (in_r1_drops s s' Ed) in HS. unfold in_r1 in HS. rewrite Hnd in HS. cbn [negb] in HS. rewrite andb_true_r in HS. rewrite (rule_is_eqb r0 r1) in HS by reflexivity.
     unfold contrib_a in HA. change (adds s') with (del (adds s) sid) in HA at 2. rewrite lookup_del_same, H in HA. rewrite (holds_add_a2 r0 sid a c H0) in HA. fold r1 in HA.
-    change (tasks s') with (tasks s). change (subs s') with (subs s). destruct (lookup (subs s) r0); lia.
-  - (* unfiltered: no rule, no reference *)
-    apply fresh_spec in H. destruct H as (Hns & _). pose proof (live_no_drop _ _ _ I Hns) as Hnd. set (s' := with_streams _ _).
-    assert (Es : streams s' = put (streams s) sid (mk_stream None 0 (seen s 0))) by reflexivity. assert (Ed : drops s' = drops s) by reflexivity.
-    intros r0. specialize (C r0). unfold holders in *.
-    pose proof (S_change s s' sid r0 Ks Ks' ltac:(rewrite Es; apply del_put) (fun sid' _ => in_r1_drops s s' Ed sid')) as HS.
-    unfold contrib_s in HS. rewrite (eq_trans (f_equal (fun l => lookup l sid) Es) (lookup_put_same _ _ _)), Hns in HS. rewrite holds_stream_val in HS. unfold rule_is in HS. cbn [s_rule mk_stream andb b2n] in HS.
-    change (tasks s') with (tasks s). change (subs s') with (subs s). change (adds s') with (adds s). destruct (lookup (subs s) r0); lia.
-  - (* poll: the record changes, the rule does not *)
-    destruct H as [Hl Hd]. set (s' := with_streams _ _). assert (Es : streams s' = put (streams s) sid (got_more st x)) by reflexivity. assert (Ed : drops s' = drops s) by reflexivity.
-    intros r0. specialize (C r0). unfold holders in *.
-    pose proof (S_change s s' sid r0 Ks Ks' ltac:(rewrite Es; apply del_put) (fun sid' _ => in_r1_drops s s' Ed sid')) as HS.
-    unfold contrib_s in HS. rewrite (eq_trans (f_equal (fun l => lookup l sid) Es) (lookup_put_same _ _ _)), Hl in HS. rewrite !holds_stream_val in HS. rewrite (in_r1_drops s s' Ed) in HS.
-    change (rule_is r0 (got_more st x)) with (rule_is r0 st) in HS.
-    change (tasks s') with (tasks s). change (subs s') with (subs s). change (adds s') with (adds s). destruct (lookup (subs s) r0); lia.
-  - (* drop: the stream's reference passes to the queued remove_match *)
-    destruct H as [Hl Hd]. set (s' := with_tasks _ _). assert (Es : streams s' = del (streams s) sid) by reflexivity. assert (Ed : drops s' = drops s) by reflexivity.
-    intros r0. specialize (C r0). unfold holders in *.
-    pose proof (S_change s s' sid r0 Ks Ks' ltac:(rewrite Es; apply del_del) (fun sid' _ => in_r1_drops s s' Ed sid')) as HS.
-    unfold contrib_s in HS. rewrite (eq_trans (f_equal (fun l => lookup l sid) Es) (lookup_del_same _ _)), Hl in HS. rewrite holds_stream_val in HS. unfold in_r1 in HS. rewrite Hd in HS. cbn [negb] in HS.
-    rewrite andb_true_r, (rule_is_eqb r0 r st H0) in HS.
-    change (tasks s') with (tasks s ++ [(r, R0)]). rewrite cnt_app, cnt_one. rewrite holds_task_val, andb_true_r.
-    change (subs s') with (subs s). change (adds s') with (adds s). destruct (lookup (subs s) r0); lia.
-  - (* drop of an unfiltered stream *)
-    destruct H as [Hl Hd]. set (s' := bury _ _ _). assert (Es : streams s' = del (streams s) sid) by reflexivity. assert (Ed : drops s' = drops s) by reflexivity.
-    intros r0. specialize (C r0). unfold holders in *.
-    pose proof (S_change s s' sid r0 Ks Ks' ltac:(rewrite Es; apply del_del) (fun sid' _ => in_r1_drops s s' Ed sid')) as HS.
-    unfold contrib_s in HS. rewrite (eq_trans (f_equal (fun l => lookup l sid) Es) (lookup_del_same _ _)), Hl in HS. rewrite holds_stream_val in HS. unfold rule_is in HS. rewrite H0 in HS. cbn [andb b2n] in HS.
-    change (tasks s') with (tasks s). change (subs s') with (subs s). change (adds s') with (adds s). destruct (lookup (subs s) r0); lia.
-  - (* clone: excluded *) exfalso. eapply Hnc. reflexivity.
-  - (* async drop starts: the receiver is released, the stream's reference passes to the remove_match that follows *)
-    destruct H as [Hl Hd]. set (s' := with_tasks _ _). assert (Es : streams s' = del (streams s) sid) by reflexivity. assert (Ed : drops s' = drops s) by reflexivity.
-    intros r0. specialize (C r0). unfold holders in *.
-    pose proof (S_change s s' sid r0 Ks Ks' ltac:(rewrite Es; apply del_del) (fun sid' _ => in_r1_drops s s' Ed sid')) as HS.
-    unfold contrib_s in HS. rewrite (eq_trans (f_equal (fun l => lookup l sid) Es) (lookup_del_same _ _)), Hl in HS. rewrite holds_stream_val in HS. unfold in_r1 in HS. rewrite Hd in HS. cbn [negb] in HS.
-    rewrite andb_true_r, (rule_is_eqb r0 r st H0) in HS.
-    change (tasks s') with (tasks s ++ [(r, R0)]). rewrite cnt_app, cnt_one. rewrite holds_task_val, andb_true_r.
-    change (subs s') with (subs s). change (adds s') with (adds s). destruct (lookup (subs s) r0); lia.
-  - (* async drop of an unfiltered stream *)
-    destruct H as [Hl Hd]. set (s' := bury _ _ _). assert (Es : streams s' = del (streams s) sid) by reflexivity. assert (Ed : drops s' = drops s) by reflexivity.
-    intros r0. specialize (C r0). unfold holders in *.
-    pose proof (S_change s s' sid r0 Ks Ks' ltac:(rewrite Es; apply del_del) (fun sid' _ => in_r1_drops s s' Ed sid')) as HS.
-    unfold contrib_s in HS. rewrite (eq_trans (f_equal (fun l => lookup l sid) Es) (lookup_del_same _ _)), Hl in HS. rewrite holds_stream_val in HS. unfold rule_is in HS. rewrite H0 in HS. cbn [andb b2n] in HS.
-    change (tasks s') with (tasks s). change (subs s') with (subs s). change (adds s') with (adds s). destruct (lookup (subs s) r0); lia.
-  - (* async drop, subs, not the last reference (or no entry at all) *)
-    pose proof (rm_apply_frame _ _ _ _ H3) as (_ & Estr & Eadd & Edrp & Etsk & _). set (s' := with_drops _ _).
-    assert (Es : streams s' = del (streams s) sid) by (unfold s'; cbn [streams with_drops]; rewrite streams_bury; now rewrite Estr).
-    assert (Hin : forall sid', sid' <> sid -> in_r1 s' sid' = in_r1 s sid').
-    { intros sid' Hne. unfold in_r1, s'. cbn [drops with_drops]. rewrite Edrp. now rewrite lookup_del_other. }
-    assert (Hc1 : forall r0, cnt (holds_stream s' r0) (streams s') + b2n (Nat.eqb r r0) = cnt (holds_stream s r0) (streams s)).
-    { intros r0. pose proof (S_change s s' sid r0 Ks Ks' ltac:(rewrite Es; apply del_del) Hin) as HS.
-      unfold contrib_s in HS. rewrite (eq_trans (f_equal (fun l => lookup l sid) Es) (lookup_del_same _ _)), H in HS. rewrite holds_stream_val in HS.
-      unfold in_r1 in HS. rewrite H0 in HS. cbn [negb] in HS. rewrite andb_true_r, (rule_is_eqb r0 r st H2) in HS. lia. }
-    assert (Et : tasks s' = tasks s) by (unfold s'; cbn [tasks with_drops]; exact Etsk).
-    assert (Ea : adds s' = adds s) by (unfold s'; cbn [adds with_drops]; rewrite adds_bury; exact Eadd).
-    assert (Esub : subs s' = subs s1) by reflexivity.
-    apply rm_apply_spec in H3. intros r0. pose proof (C r0) as Cr0. pose proof (C r) as Cr. unfold holders in *. rewrite Et, Ea, Esub. specialize (Hc1 r0).
-    inversion H3 as [Hn Eq1 | e n Hle Hre Eq1 | |]; subst.
-    + (* no entry: then nobody holds the rule — but this stream does *)
-      rewrite Hn in Cr. destruct (Nat.eq_dec r0 r) as [->|Hne].
-      * rewrite Nat.eqb_refl in Hc1. cbn [b2n] in Hc1. rewrite Hn. lia.
-      * replace (Nat.eqb r r0) with false in Hc1 by (symmetry; apply Nat.eqb_neq; congruence). cbn [b2n] in Hc1. destruct (lookup (subs s1) r0); lia.
-    + cbn [subs with_subs]. rewrite Hle in Cr. destruct (Nat.eq_dec r0 r) as [->|Hne].
-      * rewrite lookup_put_same. rewrite Nat.eqb_refl in Hc1. cbn [b2n e_ref] in *. lia.
-      * rewrite lookup_put_other by assumption. replace (Nat.eqb r r0) with false in Hc1 by (symmetry; apply Nat.eqb_neq; congruence). cbn [b2n] in Hc1.
-        destruct (lookup (subs s) r0); lia.
-  - (* async drop, subs, last reference *)
-    pose proof (rm_apply_frame _ _ _ _ H3) as (_ & Estr & Eadd & Edrp & Etsk & _). set (s' := with_drops _ _).
-    assert (Es : streams s' = streams s) by (unfold s'; cbn [streams with_drops]; exact Estr).
-    assert (Hin : forall sid', sid' <> sid -> in_r1 s' sid' = in_r1 s sid').
-    { intros sid' Hne. unfold in_r1, s'. cbn [drops with_drops]. rewrite Edrp. now rewrite lookup_put_other. }
-    assert (Hc1 : forall r0, cnt (holds_stream s' r0) (streams s') + b2n (Nat.eqb r r0) = cnt (holds_stream s r0) (streams s)).
-    { intros r0. pose proof (S_change s s' sid r0 Ks Ks' ltac:(now rewrite Es) Hin) as HS.
-      unfold contrib_s in HS. rewrite Es, H in HS. rewrite !holds_stream_val in HS.
-      assert (E1 : in_r1 s' sid = true) by (unfold in_r1, s'; cbn [drops with_drops]; now rewrite lookup_put_same).
-      rewrite E1 in HS. unfold in_r1 in HS. rewrite H0 in HS. cbn [negb] in HS. rewrite andb_true_r, andb_false_r, (rule_is_eqb r0 r st H2) in HS. cbn [b2n] in HS. rewrite Es. lia. }
-    assert (Et : tasks s' = tasks s) by (unfold s'; cbn [tasks with_drops]; exact Etsk).
-    assert (Ea : adds s' = adds s) by (unfold s'; cbn [adds with_drops]; exact Eadd).
-    assert (Esub : subs s' = subs s1) by reflexivity.
-    apply rm_apply_spec in H3. intros r0. pose proof (C r0) as Cr0. pose proof (C r) as Cr. unfold holders in *. rewrite Et, Ea, Esub. specialize (Hc1 r0).
-    assert (Hsub1 : subs s1 = del (subs s) r /\ exists e, lookup (subs s) r = Some e /\ e_ref e <= 1).
-    { inversion H3; subst; cbn [subs with_subs set_chan with_chans]; split; try reflexivity; eauto. }
-    destruct Hsub1 as (Es1 & e & He & Hle). rewrite Es1. rewrite He in Cr. destruct (Nat.eq_dec r0 r) as [->|Hne].
-    + rewrite lookup_del_same. rewrite Nat.eqb_refl in Hc1. cbn [b2n] in Hc1. lia.
-    + rewrite lookup_del_other by assumption. replace (Nat.eqb r r0) with false in Hc1 by (symmetry; apply Nat.eqb_neq; congruence). cbn [b2n] in Hc1.
-      destruct (lookup (subs s) r0); lia.
-  - (* async drop, sender: the stream had given up its reference already *)
-    set (s' := with_drops _ _).
-    assert (Es : streams s' = del (streams s) sid) by (unfold s'; cbn [streams with_drops]; rewrite streams_bury; now rewrite streams_rm).
-    assert (Hin : forall sid', sid' <> sid -> in_r1 s' sid' = in_r1 s sid').
-    { intros sid' Hne. unfold in_r1, s'. cbn [drops with_drops]. now rewrite lookup_del_other. }
-    intros r0. specialize (C r0). unfold holders in *.
-    pose proof (S_change s s' sid r0 Ks Ks' ltac:(rewrite Es; apply del_del) Hin) as HS.
-    unfold contrib_s in HS. rewrite (eq_trans (f_equal (fun l => lookup l sid) Es) (lookup_del_same _ _)), H in HS. rewrite holds_stream_val in HS.
-    unfold in_r1 in HS. rewrite H0 in HS. cbn [negb] in HS. rewrite andb_false_r in HS. cbn [b2n] in HS.
-    assert (Et : tasks s' = tasks s) by (unfold s'; cbn [tasks with_drops]; change (tasks (bury (rm_sender s r) sid st)) with (tasks (rm_sender s r)); apply tasks_rm).
-    assert (Ea : adds s' = adds s) by (unfold s'; cbn [adds with_drops]; rewrite adds_bury; apply adds_rm).
-    assert (Esub : subs s' = subs s) by (unfold s'; cbn [subs with_drops]; change (subs (bury (rm_sender s r) sid st)) with (subs (rm_sender s r)); apply subs_rm).
-    rewrite Et, Ea, Esub. destruct (lookup (subs s) r0); lia.
+    change (tasks s') with (tasks s). change (subs s') with (subs s). change (arcs s') with (arcs s ++ [(r1, [sid])]). rewrite cnt_app, cnt_one. replace (is_rule r0 (r1, [sid])) with (Nat.eqb r1 r0) by reflexivity.
+    destruct (lookup (subs s) r0); lia.
+  - (* drop by the last holder: the shared rule goes, a remove_match call comes *)
+    destruct H as [Hl _]. intros r0. specialize (C r0). unfold holders in *. pose proof (cnt_release s sid st r a' true G Hl H0 H1 r0) as HR. cbn [arcs tasks adds subs with_arcs with_tasks] in *.
+    change (tasks (bury s sid st)) with (tasks s) in *. change (adds (bury s sid st)) with (adds s). change (subs (bury s sid st)) with (subs s).
+    rewrite cnt_app, cnt_one. rewrite holds_task_val, andb_true_r. destruct (lookup (subs s) r0); lia.
+  - (* clone: one more holder of the same shared rule *)
+    intros r0. specialize (C r0). unfold holders in *. cbn [arcs tasks adds subs with_arcs with_streams set_chan with_chans]. rewrite cnt_join. exact C.
+  - (* async drop by the last holder *)
+    destruct H as [Hl _]. intros r0. specialize (C r0). unfold holders in *. pose proof (cnt_release s sid st r a' true G Hl H0 H1 r0) as HR. cbn [arcs tasks adds subs with_arcs with_tasks] in *.
+    change (tasks (bury s sid st)) with (tasks s) in *. change (adds (bury s sid st)) with (adds s). change (subs (bury s sid st)) with (subs s).
+    rewrite cnt_app, cnt_one. rewrite holds_task_val, andb_true_r. destruct (lookup (subs s) r0); lia.
   - (* task, subs, not the last reference *)
-    pose proof (rm_apply_frame _ _ _ _ H1) as (_ & Estr & Eadd & Edrp & Etsk & _). set (s' := with_tasks _ _).
-    assert (Es : streams s' = streams s) by (unfold s'; cbn [streams with_tasks]; exact Estr).
-    assert (Ed : drops s' = drops s) by (unfold s'; cbn [drops with_tasks]; exact Edrp).
+    pose proof (rm_apply_frame _ _ _ _ H1) as (_ & _ & Eadd & _ & Etsk & _ & _ & _ & _ & Earc). set (s' := with_tasks _ _).
     assert (Ea : adds s' = adds s) by (unfold s'; cbn [adds with_tasks]; exact Eadd).
+    assert (Er : arcs s' = arcs s) by (unfold s'; cbn [arcs with_tasks]; exact Earc).
     assert (Hc1 : forall r0, cnt (holds_task r0) (tasks s') + b2n (Nat.eqb r r0) = cnt (holds_task r0) (tasks s)).
     { intros r0. unfold s'. cbn [tasks with_tasks]. pose proof (cnt_del_nth (holds_task r0) (tasks s) n (r, R0) H) as Hx. rewrite holds_task_val, andb_true_r in Hx. exact Hx. }
     assert (Esub : subs s' = subs s1) by reflexivity.
-    apply rm_apply_spec in H1. intros r0. pose proof (C r0) as Cr0. pose proof (C r) as Cr. unfold holders in *. rewrite Es, Ea, Esub, (S_pred s s' r0 (in_r1_drops s s' Ed)). specialize (Hc1 r0).
+    apply rm_apply_spec in H1. intros r0. pose proof (C r0) as Cr0. pose proof (C r) as Cr. unfold holders in *. rewrite Er, Ea, Esub. specialize (Hc1 r0).
     inversion H1 as [Hn Eq1 | e n0 Hle Hre Eq1 | |]; subst.
     + rewrite Hn in Cr. destruct (Nat.eq_dec r0 r) as [->|Hne].
       * rewrite Nat.eqb_refl in Hc1. cbn [b2n] in Hc1. rewrite Hn. lia.
@@ -280,15 +282,14 @@ Proof.
       * rewrite lookup_put_other by assumption. replace (Nat.eqb r r0) with false in Hc1 by (symmetry; apply Nat.eqb_neq; congruence). cbn [b2n] in Hc1.
         destruct (lookup (subs s) r0); lia.
   - (* task, subs, last reference *)
-    pose proof (rm_apply_frame _ _ _ _ H1) as (_ & Estr & Eadd & Edrp & Etsk & _). set (s' := with_tasks _ _).
-    assert (Es : streams s' = streams s) by (unfold s'; cbn [streams with_tasks]; exact Estr).
-    assert (Ed : drops s' = drops s) by (unfold s'; cbn [drops with_tasks]; exact Edrp).
+    pose proof (rm_apply_frame _ _ _ _ H1) as (_ & _ & Eadd & _ & Etsk & _ & _ & _ & _ & Earc). set (s' := with_tasks _ _).
     assert (Ea : adds s' = adds s) by (unfold s'; cbn [adds with_tasks]; exact Eadd).
+    assert (Er : arcs s' = arcs s) by (unfold s'; cbn [arcs with_tasks]; exact Earc).
     assert (Hc1 : forall r0, cnt (holds_task r0) (tasks s') + b2n (Nat.eqb r r0) = cnt (holds_task r0) (tasks s)).
     { intros r0. unfold s'. cbn [tasks with_tasks]. pose proof (cnt_upd (holds_task r0) (tasks s) n (r, R1 c) (r, R0) H) as Hx.
       rewrite !holds_task_val, andb_true_r, andb_false_r in Hx. cbn [b2n] in Hx. lia. }
     assert (Esub : subs s' = subs s1) by reflexivity.
-    apply rm_apply_spec in H1. intros r0. pose proof (C r0) as Cr0. pose proof (C r) as Cr. unfold holders in *. rewrite Es, Ea, Esub, (S_pred s s' r0 (in_r1_drops s s' Ed)). specialize (Hc1 r0).
+    apply rm_apply_spec in H1. intros r0. pose proof (C r0) as Cr0. pose proof (C r) as Cr. unfold holders in *. rewrite Er, Ea, Esub. specialize (Hc1 r0).
     assert (Hsub1 : subs s1 = del (subs s) r /\ exists e, lookup (subs s) r = Some e /\ e_ref e <= 1).
     { inversion H1; subst; cbn [subs with_subs set_chan with_chans]; split; try reflexivity; eauto. }
     destruct Hsub1 as (Es1 & e & He & Hle). rewrite Es1. rewrite He in Cr. destruct (Nat.eq_dec r0 r) as [->|Hne].
@@ -297,104 +298,80 @@ Proof.
       destruct (lookup (subs s) r0); lia.
   - (* task, sender *)
     set (s' := with_tasks _ _).
-    assert (Es : streams s' = streams s) by (unfold s'; cbn [streams with_tasks]; apply streams_rm).
-    assert (Ed : drops s' = drops s) by (unfold s'; cbn [drops with_tasks]; apply drops_rm).
+    assert (Er : arcs s' = arcs s) by (unfold s'; cbn [arcs with_tasks]; apply arcs_rm).
     assert (Ea : adds s' = adds s) by (unfold s'; cbn [adds with_tasks]; apply adds_rm).
     assert (Esub : subs s' = subs s) by (unfold s'; cbn [subs with_tasks]; apply subs_rm).
-    intros r0. specialize (C r0). unfold holders in *. rewrite Es, Ea, Esub, (S_pred s s' r0 (in_r1_drops s s' Ed)).
+    intros r0. specialize (C r0). unfold holders in *. rewrite Er, Ea, Esub.
     unfold s'. cbn [tasks with_tasks]. pose proof (cnt_del_nth (holds_task r0) (tasks s) n (r, R1 c) H) as Hx. rewrite holds_task_val, andb_false_r in Hx. cbn [b2n] in Hx.
     destruct (lookup (subs s) r0); lia.
   - (* add sender, failed: the call was the only holder; entry and call go together *)
     set (r1 := a_rule a) in *. set (s' := with_adds _ _).
     assert (Hme : a2 s sid r1 c) by (exists a; tauto). pose proof (Aone _ _ _ Hme) as Hone.
-    assert (Ed : drops s' = drops s) by reflexivity.
     intros r0. specialize (C r0). unfold holders in *.
     pose proof (A_change s s' sid r0 Ka Ka' ltac:(apply del_del)) as HA.
     unfold contrib_a in HA. change (adds s') with (del (adds s) sid) in HA at 2. rewrite lookup_del_same, H in HA. rewrite (holds_add_a2 r0 sid a c H0) in HA. fold r1 in HA.
-    change (streams s') with (streams s). rewrite (S_pred s s' r0 (in_r1_drops s s' Ed)). change (tasks s') with (tasks s). change (subs s') with (del (subs s) r1).
+    change (arcs s') with (arcs s). change (tasks s') with (tasks s). change (subs s') with (del (subs s) r1).
     destruct (Nat.eq_dec r0 r1) as [->|Hne].
     + rewrite lookup_del_same. rewrite Nat.eqb_refl in HA. cbn [b2n] in HA. lia.
     + rewrite lookup_del_other by assumption. replace (Nat.eqb r1 r0) with false in HA by (symmetry; apply Nat.eqb_neq; congruence). cbn [b2n] in HA.
       destruct (lookup (subs s) r0); lia.
+  - (* drop while other clones hold the rule: nothing is given back *)
+    destruct H as [Hl _]. intros r0. specialize (C r0). unfold holders in *. pose proof (cnt_release s sid st r a' false G Hl H0 H1 r0) as HR. cbn [arcs tasks adds subs with_arcs] in *.
+    change (tasks (bury s sid st)) with (tasks s). change (adds (bury s sid st)) with (adds s). change (subs (bury s sid st)) with (subs s). destruct (lookup (subs s) r0); lia.
+  - destruct H as [Hl _]. intros r0. specialize (C r0). unfold holders in *. pose proof (cnt_release s sid st r a' false G Hl H0 H1 r0) as HR. cbn [arcs tasks adds subs with_arcs] in *.
+    change (tasks (bury s sid st)) with (tasks s). change (adds (bury s sid st)) with (adds s). change (subs (bury s sid st)) with (subs s). destruct (lookup (subs s) r0); lia.
 Qed.
 
+(* ---- all streams of a rule read the channel of its entry ---- *)
 Definition chan_agree (s : sys) : Prop :=
-  forall sid st r e, lookup (streams s) sid = Some st -> s_rule st = Some r -> in_r1 s sid = false -> lookup (subs s) r = Some e -> s_ch st = e_ch e.
+  forall sid st r e, lookup (streams s) sid = Some st -> s_rule st = Some r -> lookup (subs s) r = Some e -> s_ch st = e_ch e.
 
-Lemma agree_step s l s' : tstep s l s' -> Inv s -> keys_ok s -> (forall a b, l <> LClone a b) -> count_ok s -> chan_agree s -> chan_agree s'.
+Lemma agree_step s l s' : tstep s l s' -> Inv s -> drops s = [] -> count_ok s -> grp_ok s -> chan_agree s -> chan_agree s'.
 Proof.
-  intros Hs I [Ks Ka] Hnc C G sid0 st0 r0 e0 Hl Hr Hin He.
-  (* the generic case: the stream and the entry (or one with the same channel) were there before *)
-  assert (Hgen : forall st1 e1, lookup (streams s) sid0 = Some st1 -> s_rule st1 = Some r0 -> s_ch st1 = s_ch st0 -> in_r1 s sid0 = false ->
-                   lookup (subs s) r0 = Some e1 -> e_ch e1 = e_ch e0 -> s_ch st0 = e_ch e0).
-  { intros st1 e1 Hl1 Hr1 Hc1 Hin1 He1 Hce. rewrite <- Hc1, <- Hce. eapply G; eassumption. }
-  destruct Hs; try (eapply Hgen; [exact Hl | exact Hr | reflexivity | exact Hin | exact He | reflexivity]).
-  - (* occupied *) subst c ch1 s1 s2. cbn [streams subs with_adds with_streams with_subs set_chan with_chans] in Hl, He.
-    assert (Hin' : in_r1 s sid0 = false) by exact Hin.
+  intros Hs I Hd C [G1 G2] G sid0 st0 r0 e0 Hl Hr He.
+  destruct Hs; try (eapply G; [exact Hl | exact Hr | exact He]); try (dead_drop Hd).
+  - (* occupied *) subst c ch1 s1 s2. cbn [streams subs with_arcs with_adds with_streams with_subs set_chan with_chans] in Hl, He.
     destruct (Nat.eq_dec sid0 sid) as [->|Hne].
     + rewrite lookup_put_same in Hl. inversion Hl; subst st0. cbn in Hr. inversion Hr; subst r0. rewrite lookup_put_same in He. inversion He; subst e0. reflexivity.
     + rewrite lookup_put_other in Hl by assumption. destruct (Nat.eq_dec r0 (a_rule a)) as [->|Hnr].
       * rewrite lookup_put_same in He. inversion He; subst e0. cbn. eapply G; eassumption.
       * rewrite lookup_put_other in He by assumption. eapply G; eassumption.
   - (* vacant: nobody holds the rule, so no stream of the rule is around *)
-    subst c capacity s1 s2. cbn [streams subs with_adds with_subs with_chans] in Hl, He. assert (Hin' : in_r1 s sid0 = false) by exact Hin.
+    subst c capacity s1 s2. cbn [streams subs with_adds with_subs with_chans] in Hl, He.
     destruct (Nat.eq_dec r0 (a_rule a)) as [->|Hnr]; [|rewrite lookup_put_other in He by assumption; eapply G; eassumption].
-    exfalso. specialize (C (a_rule a)). rewrite H2 in C. unfold holders in C.
-    assert (Hz : cnt (holds_stream s (a_rule a)) (streams s) = 0) by lia. rewrite cnt_zero_iff in Hz. specialize (Hz (sid0, st0) (lookup_in _ _ _ Hl)).
-    rewrite holds_stream_val, Hin', (rule_is_eqb _ _ _ Hr), Nat.eqb_refl in Hz. discriminate.
-  - (* add sender *) cbn [streams subs with_adds with_streams with_senders] in Hl, He. assert (Hin' : in_r1 s sid0 = false) by exact Hin.
+    exfalso. specialize (C (a_rule a)). rewrite H2 in C. unfold holders in C. destruct (G1 _ _ _ Hl Hr) as (i & ms & _ & Hn). apply nth_error_In in Hn.
+    pose proof (cnt_pos (is_rule (a_rule a)) (arcs s) _ Hn ltac:(unfold is_rule; cbn; apply Nat.eqb_refl)). lia.
+  - (* add sender *) cbn [streams subs with_arcs with_adds with_streams with_senders] in Hl, He.
     destruct (Nat.eq_dec sid0 sid) as [->|Hne]; [|rewrite lookup_put_other in Hl by assumption; eapply G; eassumption].
     rewrite lookup_put_same in Hl. inversion Hl; subst st0. cbn in Hr. inversion Hr; subst r0. cbn.
     destruct (inv_a2 _ _ I sid (a_rule a) c) as ((e & He1 & Hc1) & _); [exists a; tauto|]. congruence.
-  - (* unfiltered *) cbn [streams subs with_streams set_chan with_chans] in Hl, He. assert (Hin' : in_r1 s sid0 = false) by exact Hin.
+  - (* unfiltered *) cbn [streams subs with_streams set_chan with_chans] in Hl, He.
     destruct (Nat.eq_dec sid0 sid) as [->|Hne]; [rewrite lookup_put_same in Hl; inversion Hl; subst; discriminate|].
     rewrite lookup_put_other in Hl by assumption. eapply G; eassumption.
-  - (* poll *) destruct H as [Hl0 Hd]. cbn [streams subs with_streams set_chan with_chans] in Hl, He. assert (Hin' : in_r1 s sid0 = false) by exact Hin.
+  - (* poll *) destruct H as [Hl0 _]. cbn [streams subs with_streams set_chan with_chans] in Hl, He.
     destruct (Nat.eq_dec sid0 sid) as [->|Hne]; [|rewrite lookup_put_other in Hl by assumption; eapply G; eassumption].
     rewrite lookup_put_same in Hl. inversion Hl; subst st0. cbn in *. eapply G; eassumption.
-  - (* drop *) cbn [streams with_tasks] in Hl. rewrite streams_bury in Hl. apply in_del_lookup in Hl. eapply G; eassumption.
+  - (* drop *) cbn [streams subs with_arcs with_tasks] in Hl, He. rewrite streams_bury in Hl. apply in_del_lookup in Hl. eapply G; eassumption.
   - rewrite streams_bury in Hl. apply in_del_lookup in Hl. eapply G; eassumption.
-  - exfalso. eapply Hnc. reflexivity.
-  - (* async drop starts: as drop *) cbn [streams with_tasks] in Hl. rewrite streams_bury in Hl. apply in_del_lookup in Hl. eapply G; eassumption.
+  - (* clone: same record, same channel *) destruct H as [Hl0 _]. cbn [streams subs with_arcs with_streams set_chan with_chans] in Hl, He.
+    destruct (Nat.eq_dec sid0 sid2) as [->|Hne]; [|rewrite lookup_put_other in Hl by assumption; eapply G; eassumption].
+    rewrite lookup_put_same in Hl. inversion Hl; subst st0. eapply G; eassumption.
+  - cbn [streams subs with_arcs with_tasks] in Hl, He. rewrite streams_bury in Hl. apply in_del_lookup in Hl. eapply G; eassumption.
   - rewrite streams_bury in Hl. apply in_del_lookup in Hl. eapply G; eassumption.
-  - (* async drop, subs, done *)
-    pose proof (rm_apply_frame _ _ _ _ H3) as (_ & Estr & _ & Edrp & _). cbn [streams subs with_drops] in Hl, He. rewrite streams_bury, Estr in Hl.
-    change (subs (bury s1 sid st)) with (subs s1) in He.
-    destruct (Nat.eq_dec sid0 sid) as [->|Hne]; [now rewrite lookup_del_same in Hl|]. rewrite lookup_del_other in Hl by assumption.
-    assert (Hin' : in_r1 s sid0 = false) by (unfold in_r1 in *; cbn [drops with_drops] in Hin; change (drops (bury s1 sid st)) with (drops s1) in Hin; rewrite Edrp in Hin; now rewrite lookup_del_other in Hin).
-    apply rm_apply_spec, rm_spec_tables in H3. destruct H3 as (_ & _ & _ & _ & _ & _ & Eoth & Erm).
-    destruct (Nat.eq_dec r0 r) as [->|Hnr]; [|rewrite (Eoth _ Hnr) in He; eapply G; eassumption].
-    destruct (lookup (subs s) r) as [e1|] eqn:E1; [|congruence]. destruct Erm as (e' & He' & Hce). rewrite He' in He. inversion He; subst e0.
-    rewrite Hce. eapply G; eassumption.
-  - (* async drop, subs, wait *)
-    pose proof (rm_apply_frame _ _ _ _ H3) as (_ & Estr & _ & Edrp & _). cbn [streams subs with_drops] in Hl, He. rewrite Estr in Hl.
-    assert (Hne : sid0 <> sid) by (intros ->; unfold in_r1 in Hin; cbn [drops with_drops] in Hin; rewrite lookup_put_same in Hin; discriminate).
-    assert (Hin' : in_r1 s sid0 = false) by (unfold in_r1 in *; cbn [drops with_drops] in Hin; rewrite Edrp in Hin; now rewrite lookup_put_other in Hin).
-    apply rm_apply_spec, rm_spec_tables in H3. destruct H3 as (_ & _ & _ & _ & _ & _ & Eoth & (En & _)).
-    destruct (Nat.eq_dec r0 r) as [->|Hnr]; [congruence|]. rewrite (Eoth _ Hnr) in He. eapply G; eassumption.
-  - (* async drop, sender *)
-    cbn [streams subs with_drops] in Hl, He. rewrite streams_bury, streams_rm in Hl. change (subs (bury (rm_sender s r) sid st)) with (subs (rm_sender s r)) in He. rewrite subs_rm in He.
-    destruct (Nat.eq_dec sid0 sid) as [->|Hne]; [now rewrite lookup_del_same in Hl|]. rewrite lookup_del_other in Hl by assumption.
-    assert (Hin' : in_r1 s sid0 = false) by (unfold in_r1 in *; cbn [drops with_drops] in Hin; now rewrite lookup_del_other in Hin).
-    eapply G; eassumption.
   - (* task, subs, done *)
-    pose proof (rm_apply_frame _ _ _ _ H1) as (_ & Estr & _ & Edrp & _). cbn [streams subs with_tasks] in Hl, He. rewrite Estr in Hl.
-    assert (Hin' : in_r1 s sid0 = false) by (unfold in_r1 in *; cbn [drops with_tasks] in Hin; now rewrite Edrp in Hin).
+    pose proof (rm_apply_frame _ _ _ _ H1) as (_ & Estr & _). cbn [streams subs with_tasks] in Hl, He. rewrite Estr in Hl.
     apply rm_apply_spec, rm_spec_tables in H1. destruct H1 as (_ & _ & _ & _ & _ & _ & Eoth & Erm).
     destruct (Nat.eq_dec r0 r) as [->|Hnr]; [|rewrite (Eoth _ Hnr) in He; eapply G; eassumption].
     destruct (lookup (subs s) r) as [e1|] eqn:E1; [|congruence]. destruct Erm as (e' & He' & Hce). rewrite He' in He. inversion He; subst e0.
     rewrite Hce. eapply G; eassumption.
   - (* task, subs, wait *)
-    pose proof (rm_apply_frame _ _ _ _ H1) as (_ & Estr & _ & Edrp & _). cbn [streams subs with_tasks] in Hl, He. rewrite Estr in Hl.
-    assert (Hin' : in_r1 s sid0 = false) by (unfold in_r1 in *; cbn [drops with_tasks] in Hin; now rewrite Edrp in Hin).
+    pose proof (rm_apply_frame _ _ _ _ H1) as (_ & Estr & _). cbn [streams subs with_tasks] in Hl, He. rewrite Estr in Hl.
     apply rm_apply_spec, rm_spec_tables in H1. destruct H1 as (_ & _ & _ & _ & _ & _ & Eoth & (En & _)).
     destruct (Nat.eq_dec r0 r) as [->|Hnr]; [congruence|]. rewrite (Eoth _ Hnr) in He. eapply G; eassumption.
-  - (* task, sender *)
-    cbn [streams subs with_tasks] in Hl, He. rewrite streams_rm in Hl. rewrite subs_rm in He.
-    assert (Hin' : in_r1 s sid0 = false) by (unfold in_r1 in *; cbn [drops with_tasks] in Hin; now rewrite drops_rm in Hin).
-    eapply G; eassumption.
-  - (* add sender, failed *) cbn [streams subs with_adds with_subs set_chan with_chans] in Hl, He. assert (Hin' : in_r1 s sid0 = false) by exact Hin.
-    apply in_del_lookup in He. eapply G; eassumption.
+  - (* task, sender *) cbn [streams subs with_tasks] in Hl, He. rewrite streams_rm in Hl. rewrite subs_rm in He. eapply G; eassumption.
+  - (* add sender, failed *) cbn [streams subs with_adds with_subs set_chan with_chans] in Hl, He. apply in_del_lookup in He. eapply G; eassumption.
+  - cbn [streams subs with_arcs] in Hl, He. rewrite streams_bury in Hl. apply in_del_lookup in Hl. eapply G; eassumption.
+  - cbn [streams subs with_arcs] in Hl, He. rewrite streams_bury in Hl. apply in_del_lookup in Hl. eapply G; eassumption.
 Qed.
 
 (* ---- an entry of `subscriptions` has its sender in msg_senders, unless it is just being created or the reader has failed;
@@ -406,7 +383,7 @@ Definition ereg (s : sys) : Prop :=
 
 Lemma stopped_stays s l s' : tstep s l s' -> reader s = RStopped -> reader s' = RStopped.
 Proof.
-  intros Hs Hr. destruct Hs; cbn [reader with_reader with_socket with_incoming with_adds with_streams with_subs with_chans with_senders with_cloned
+  intros Hs Hr. destruct Hs; cbn [reader with_reader with_socket with_incoming with_adds with_streams with_subs with_chans with_senders with_arcs
                                   with_drops with_tasks with_dead set_chan bury]; try congruence; try assumption;
     try (match goal with Hx : rm_apply _ _ = _ |- _ => pose proof (rm_apply_frame _ _ _ _ Hx) as (_ & _ & _ & _ & _ & Erd & _); congruence end);
     try (rewrite reader_rm; assumption).
@@ -525,6 +502,8 @@ Proof.
   - (* task, sender *) intros [(sid' & st' & Hd' & Hs' & Hr')|Hr]; left; [left | right]; simp.
     + exists sid', st'. tauto.
     + eapply in_del_nth; eassumption.
+  - (* drop, shared rule *) destruct H as [Hl Hd0]. intros Hr. left. revert Hr. eapply (Hdel _ sid); try reflexivity; eassumption.
+  - destruct H as [Hl Hd0]. intros Hr. left. revert Hr. eapply (Hdel _ sid); try reflexivity; eassumption.
 Qed.
 
 Lemma e1_keep s s' : subs s' = subs s -> (forall k c, In (k, c) (senders s) -> In (k, c) (senders s')) ->
@@ -614,9 +593,6 @@ Proof.
   induction 1 as [|tr s l s' Hr IH Hs]; [exact ereg_init|]. eapply ereg_step; [apply step_tstep; eassumption | eapply Inv_reach; eassumption | assumption].
 Qed.
 
-(* ---- the invariant along every history without clone ---- *)
-Definition no_clone (tr : list label) : Prop := forall a b, ~ In (LClone a b) tr.
-
 (* the creator of an entry stays its only holder while it holds `subscriptions` *)
 Lemma a2_one_step s l s' : tstep s l s' -> Inv s -> count_ok s -> count_ok s' -> a2_one s -> a2_one s'.
 Proof.
@@ -631,42 +607,40 @@ Proof.
   - specialize (C' r). rewrite Hent in C'. cbn [e_ref] in C'. lia.
 Qed.
 
-Theorem share_reach_full tr s : reach tr s -> no_clone tr -> count_ok s /\ chan_agree s /\ a2_one s.
+(* ---- all of it, in every reachable state, clones included ---- *)
+Theorem share_reach_full tr s : reach tr s -> count_ok s /\ chan_agree s /\ a2_one s /\ grp_ok s.
 Proof.
-  induction 1 as [|tr s l s' Hr IH Hs]; intros Hnc.
-  - split; [intros r; cbn; reflexivity | split; [intros sid st r e Hl; discriminate | intros sid r c (a & Ha & _); discriminate]].
-  - assert (Hnc' : no_clone tr) by (intros a b Hin; apply (Hnc a b), in_app_iff; now left).
-    assert (Hl : forall a b, l <> LClone a b) by (intros a b ->; apply (Hnc a b), in_app_iff; right; now left).
-    destruct (IH Hnc') as (C & G & A). pose proof (Inv_reach _ _ _ Hr) as I. pose proof (keys_reach _ _ Hr) as K. apply step_tstep in Hs.
-    pose proof (keys_step _ _ _ Hs K) as K'. assert (C' : count_ok s') by (eapply count_step; eassumption).
-    split; [exact C'|]. split; [eapply agree_step; eassumption | eapply a2_one_step; eassumption].
+  induction 1 as [|tr s l s' Hr IH Hs].
+  - split; [intros r; cbn; reflexivity|]. split; [intros sid st r e Hl; discriminate|]. split; [intros sid r c (a & Ha & _); discriminate|].
+    split; [intros sid st r Hl; discriminate | intros r ms sid []].
+  - destruct IH as (C & G & A & P). pose proof (Inv_reach _ _ _ Hr) as I. pose proof (akeys_reach _ _ Hr) as K. pose proof (drops_nil _ _ _ Hr) as Hd.
+    apply step_tstep in Hs. pose proof (akeys_step _ _ _ Hs K) as K'. assert (C' : count_ok s') by (eapply count_step; eassumption).
+    split; [exact C'|]. split; [eapply agree_step; eassumption|]. split; [eapply a2_one_step; eassumption | eapply grp_step; eassumption].
 Qed.
 
-Theorem share_reach tr s : reach tr s -> no_clone tr -> count_ok s /\ chan_agree s.
-Proof. intros Hr Hnc. destruct (share_reach_full _ _ Hr Hnc) as (C & G & _). split; assumption. Qed.
+Theorem share_reach tr s : reach tr s -> count_ok s /\ chan_agree s.
+Proof. intros Hr. destruct (share_reach_full _ _ Hr) as (C & G & _). split; assumption. Qed.
 
-(* ---- a stream that has not been cloned and is not in the second half of its asynchronous drop is registered in
-   msg_senders under its own key, unless the reader has failed ---- *)
-Theorem registered_live tr s sid st : reach tr s -> no_clone tr -> lookup (streams s) sid = Some st -> in_r1 s sid = false ->
+(* ---- every stream is registered in msg_senders under its own key, unless the reader has failed ---- *)
+Theorem registered_live tr s sid st : reach tr s -> lookup (streams s) sid = Some st ->
   In (skey st, s_ch st) (senders s) \/ reader s = RStopped.
 Proof.
-  intros Hr Hnc Hl Hnr. destruct (share_reach _ _ Hr Hnc) as [C G]. pose proof (Inv_reach _ _ _ Hr) as I. destruct (ereg_reach _ _ Hr) as (E1 & E2 & E4).
+  intros Hr Hl. destruct (share_reach_full _ _ Hr) as (C & G & _ & [G1 _]). pose proof (Inv_reach _ _ _ Hr) as I. destruct (ereg_reach _ _ Hr) as (E1 & E2 & E4).
   unfold skey. destruct (s_rule st) as [r|] eqn:Er.
   - specialize (C r). destruct (lookup (subs s) r) as [e|] eqn:Ee.
-    + rewrite (G _ _ _ _ Hl Er Hnr Ee). destruct (E1 _ _ Ee) as [H|[[sid' H]|H]]; [now left | | now right].
-      exfalso. destruct (inv_a2 _ _ I _ _ _ H) as (_ & _ & _ & _ & _ & _ & Hno). apply (Hno _ _ Hl). exact (G _ _ _ _ Hl Er Hnr Ee).
-    + exfalso. unfold holders in C. assert (1 <= cnt (holds_stream s r) (streams s)); [|lia].
-      apply (cnt_pos _ _ (sid, st)); [now apply lookup_in|]. rewrite holds_stream_val, Hnr. unfold rule_is. rewrite Er, Nat.eqb_refl. reflexivity.
+    + rewrite (G _ _ _ _ Hl Er Ee). destruct (E1 _ _ Ee) as [H|[[sid' H]|H]]; [now left | | now right].
+      exfalso. destruct (inv_a2 _ _ I _ _ _ H) as (_ & _ & _ & _ & _ & _ & Hno). apply (Hno _ _ Hl). exact (G _ _ _ _ Hl Er Ee).
+    + exfalso. unfold holders in C. destruct (G1 _ _ _ Hl Er) as (i & ms & _ & Hn). apply nth_error_In in Hn.
+      pose proof (cnt_pos (is_rule r) (arcs s) _ Hn ltac:(unfold is_rule; cbn; apply Nat.eqb_refl)). lia.
   - destruct (inv_stream _ _ I _ _ Hl) as (_ & _ & H0). rewrite (H0 Er). exact E4.
 Qed.
 
-(* C20_delivery for histories without a cloned stream: no registration hypothesis *)
-Theorem delivery_no_clone tr s sid st : reach tr s -> no_clone tr -> lookup (streams s) sid = Some st -> in_r1 s sid = false ->
-  reader s <> RStopped ->
+(* C20_delivery without registration hypothesis: for every stream of every history *)
+Theorem delivery_all tr s sid st : reach tr s -> lookup (streams s) sid = Some st -> reader s <> RStopped ->
   msgs (s_got st) ++ msgs (unread (chan_at s (s_ch st)) sid) =
   filter (Inv.accepts matches (skey st)) (skipn (s_from st) (firstn (seen s (s_ch st)) (incoming s))).
 Proof.
-  intros Hr Hnc Hl Hnr Hrd. destruct (registered_live _ _ _ _ Hr Hnc Hl Hnr) as [H|H]; [|contradiction]. eapply delivery; eassumption.
+  intros Hr Hl Hrd. destruct (registered_live _ _ _ _ Hr Hl) as [H|H]; [|contradiction]. eapply delivery; eassumption.
 Qed.
 
 End Share.
